@@ -34,16 +34,16 @@ type MethodInfo struct {
 // ServiceInfo registers the generated constructors of one service.
 type ServiceInfo struct {
 	Name         string
-	Stub         any                              // implements the generated Service (and Auther) interface
-	NewEndpoints any                              // func(Service) *Endpoints
-	NewServer    any                              // generated server.New
-	Mount        any                              // generated server.Mount
-	NewClient    any                              // generated client.NewClient
-	Methods      map[string]*MethodInfo           // by design name
-	MakeError    map[string]any                   // default-typed errors: func(error) *goa.ServiceError
-	ErrorTypes   map[string]reflect.Type          // custom error types (pointer to struct / named primitive)
-	client       reflect.Value                    // *client.Client
-	methodAtt    map[string]*design.Method        // design side
+	Stub         any                       // implements the generated Service (and Auther) interface
+	NewEndpoints any                       // func(Service) *Endpoints
+	NewServer    any                       // generated server.New
+	Mount        any                       // generated server.Mount
+	NewClient    any                       // generated client.NewClient
+	Methods      map[string]*MethodInfo    // by design name
+	MakeError    map[string]any            // default-typed errors: func(error) *goa.ServiceError
+	ErrorTypes   map[string]reflect.Type   // custom error types (pointer to struct / named primitive)
+	client       reflect.Value             // *client.Client
+	methodAtt    map[string]*design.Method // design side
 }
 
 // script is what the stub does on the next invocation.
@@ -89,6 +89,7 @@ type Runtime struct {
 	mu       sync.Mutex
 	// per goroutine-less call state: the command loop is sequential; the concurrent mode keys states by a request header
 	states map[string]*callState
+	routes [][2]string
 }
 
 // New parses the embedded design.
@@ -314,9 +315,20 @@ func (rt *Runtime) roundTrip(id string, raw []byte, w *wire) (*http.Response, er
 	return res, nil
 }
 
+// recordingMux records the (method, pattern) pairs the generated Mount functions register (C07).
+type recordingMux struct {
+	goahttp.ResolverMuxer
+	rt *Runtime
+}
+
+func (m *recordingMux) Handle(method, pattern string, handler http.HandlerFunc) {
+	m.rt.routes = append(m.rt.routes, [2]string{method, pattern})
+	m.ResolverMuxer.Handle(method, pattern, handler)
+}
+
 // Start mounts every registered service on one muxer and creates the clients.
 func (rt *Runtime) Start() {
-	rt.mux = goahttp.NewMuxer()
+	rt.mux = &recordingMux{ResolverMuxer: goahttp.NewMuxer(), rt: rt}
 	for _, s := range rt.services {
 		eps := reflect.ValueOf(s.NewEndpoints).Call([]reflect.Value{reflect.ValueOf(s.Stub)})[0]
 		dec := reflect.ValueOf(goahttp.RequestDecoder)
@@ -346,13 +358,13 @@ func (rt *Runtime) clientFor(s *ServiceInfo, d *doer) reflect.Value {
 // ---------------------------------------------------------------- command loop
 
 type command struct {
-	Op      string          `json:"op"` // call | raw
-	ID      string          `json:"id"`
-	Service string          `json:"service"`
-	Method  string          `json:"method"`
-	Payload any             `json:"payload"`
-	Script  script          `json:"script"`
-	Raw     *rawRequest     `json:"raw"`
+	Op      string            `json:"op"` // call | raw
+	ID      string            `json:"id"`
+	Service string            `json:"service"`
+	Method  string            `json:"method"`
+	Payload any               `json:"payload"`
+	Script  script            `json:"script"`
+	Raw     *rawRequest       `json:"raw"`
 	Many    []json.RawMessage `json:"many"` // concurrent batch (C20)
 }
 
@@ -364,17 +376,18 @@ type rawRequest struct {
 }
 
 type observation struct {
-	ID            string     `json:"id,omitempty"`
-	ServerCalled  bool       `json:"server_called"`
-	ServerPayload any        `json:"server_payload,omitempty"`
-	ClientResult  any        `json:"client_result,omitempty"`
-	ClientView    string     `json:"client_view,omitempty"`
-	ClientError   *errInfo   `json:"client_error,omitempty"`
-	Auth          []authCall `json:"auth,omitempty"`
-	WriteHeaders  int        `json:"write_headers"`
-	Wire          *wire      `json:"wire,omitempty"`
-	Panic         string     `json:"panic,omitempty"`
-	Harness       string     `json:"harness_error,omitempty"`
+	ID            string      `json:"id,omitempty"`
+	ServerCalled  bool        `json:"server_called"`
+	ServerPayload any         `json:"server_payload,omitempty"`
+	ClientResult  any         `json:"client_result,omitempty"`
+	ClientView    string      `json:"client_view,omitempty"`
+	ClientError   *errInfo    `json:"client_error,omitempty"`
+	Auth          []authCall  `json:"auth,omitempty"`
+	WriteHeaders  int         `json:"write_headers"`
+	Wire          *wire       `json:"wire,omitempty"`
+	Panic         string      `json:"panic,omitempty"`
+	Routes        [][2]string `json:"routes,omitempty"`
+	Harness       string      `json:"harness_error,omitempty"`
 }
 
 type errInfo struct {
@@ -453,6 +466,10 @@ func (rt *Runtime) exec(c *command) (obs observation) {
 	w := &wire{}
 	obs.Wire = w
 	switch c.Op {
+	case "routes":
+		obs.Routes = rt.routes
+		obs.Wire = nil
+		return
 	case "raw":
 		var b bytes.Buffer
 		fmt.Fprintf(&b, "%s %s HTTP/1.1\r\nHost: example.com\r\n", c.Raw.Method, c.Raw.Target)
